@@ -1099,7 +1099,7 @@ pub fn run_shard(ctx: &ShardCtx, rep: &mut Report) {
         }
     }
     let total: u64 = match ctx.tier {
-        Tier::Quick => ctx.scaled(1600) as u64,
+        Tier::Quick => ctx.scaled(2400) as u64,
         Tier::Thorough => ctx.scaled(120_000) as u64,
     };
     let n_envs = if ctx.tier == Tier::Quick { 5 } else { 10 };
